@@ -75,9 +75,15 @@ def _history(draw, tier):
         if dup and v == 0:
             d.insert(draw(st.integers(0, len(d))), d[0])       # the same object listed twice
         doms.append(d)
+    if not join_story and chance(draw, 1, 8):
+        # one variable's domain holds no instance of its type at all (only objects of other classes), while instances of
+        # the type exist elsewhere: the variable has no value, on the first evaluation and on every later one
+        base_ = len(recs)
+        recs = recs + [{"cls": "Other", "k": 90, "a": 1}, {"cls": "Foreign", "k": 91}]
+        doms[draw(st.integers(0, nvars - 1))] = [base_, base_ + 1][:draw(st.integers(1, 2))]
     vars_ = [{"dom": v, "decl": draw(st.sampled_from(["let", "from"])), "type": "Ent"} for v in range(nvars)]
     for vd in vars_:
-        if chance(draw, 1, 6):
+        if chance(draw, 1, 6) and all(recs[i].get("cls") not in ("Other", "Foreign") for i in doms[vd["dom"]]):
             # predicate-form declaration with a field constraint that some member of the domain satisfies
             f = draw(st.sampled_from(["a", "b", "s"]))
             vd.update(decl="from", kw=[[f, recs[draw(st.sampled_from(doms[vd["dom"]]))][f]]])
